@@ -684,11 +684,28 @@ func ruleRetryLoopExits(c *Ctx, r *Rule) {
 			}
 		}
 	}
-	if len(sends) != 1 || len(errCbs) != 1 {
-		r.Ob(false, name+"|shape", fn.Pos(), fmt.Sprintf("retry function has %d send calls and %d error callbacks through RetriableBatcher fields (expected 1 and 1)", len(sends), len(errCbs)))
+	if len(sends) != 1 || len(errCbs) < 1 {
+		r.Ob(false, name+"|shape", fn.Pos(), fmt.Sprintf("retry function has %d send calls and %d error callbacks through RetriableBatcher fields (expected 1 and at least 1)", len(sends), len(errCbs)))
 		return
 	}
-	send, cb := sends[0], errCbs[0]
+	send := sends[0]
+	isCb := func(in ssa.Instruction) bool {
+		for _, cb := range errCbs {
+			if in == ssa.Instruction(cb) {
+				return true
+			}
+		}
+		return false
+	}
+	isSend := func(in ssa.Instruction) bool { return in == ssa.Instruction(send) }
+	// at most one error callback per exhaustion: no way from one callback site to another (or back to
+	// itself) without a new send
+	for i, cb := range errCbs {
+		again, _ := c.pathExists(fn, cb, isCb, isSend)
+		if len(errCbs) > 1 || again {
+			r.Ob(!again, fmt.Sprintf("%s|callback#%d|once", name, i), cb.Pos(), "after the error callback no second error callback is reached for the same failed batch")
+		}
+	}
 	n := 0
 	for _, b := range fn.Blocks {
 		ret, ok := asReturn(b)
@@ -704,28 +721,35 @@ func ruleRetryLoopExits(c *Ctx, r *Rule) {
 				}
 			}
 		}
-		exhausted := instrDominates(cb, ret)
+		// otherwise: every way from the send to this return passes an error callback
+		skip, _ := c.pathExists(fn, send, func(in ssa.Instruction) bool { return in == ssa.Instruction(ret) }, func(in ssa.Instruction) bool { return isCb(in) || isSend(in) })
+		exhausted := !skip
 		r.Ob(success || exhausted, fmt.Sprintf("%s|return#%d", name, n), ret.Pos(),
 			"the retry loop returns only when the send returned nil or after the error callback on exhaustion; guards: "+c.clausesString(c.guards(fn)[b]))
 	}
-	// the error callback is reached only on failure of this iteration's send and under the exhaustion predicate
-	failGuard := false
-	for _, l := range c.unitGuards(cb) {
-		if op, x, y, ok := cmpLit(l); ok && op == token.NEQ {
-			if (x == send.Value() && isNilConst(y)) || (y == send.Value() && isNilConst(x)) {
-				failGuard = true
+	for i, cb := range errCbs {
+		sfx := ""
+		if len(errCbs) > 1 {
+			sfx = fmt.Sprintf("#%d", i)
+		}
+		// the error callback is reached only on failure of this iteration's send and under the exhaustion predicate
+		failGuard := false
+		for _, l := range c.unitGuards(cb) {
+			if op, x, y, ok := cmpLit(l); ok && op == token.NEQ {
+				if (x == send.Value() && isNilConst(y)) || (y == send.Value() && isNilConst(x)) {
+					failGuard = true
+				}
 			}
 		}
+		r.Ob(failGuard, name+"|callback-on-failure"+sfx, cb.Pos(), "the error callback is control-dependent on err != nil of the send")
+		exh := c.guardedBy(cb, func(l lit) bool { return c.isExhaustionLit(l) })
+		r.Ob(exh, name+"|callback-on-exhaustion"+sfx, cb.Pos(), "the error callback is control-dependent on the exhaustion predicate (backoff stop or attempt counter vs AttemptNum); guards: "+c.clausesString(c.guards(fn)[cb.Block()]))
+		args := cb.Common().Args
+		r.Ob(len(args) >= 1 && args[0] == send.Value(), name+"|callback-error"+sfx, cb.Pos(), "the error callback receives the error of the failed send")
 	}
-	r.Ob(failGuard, name+"|callback-on-failure", cb.Pos(), "the error callback is control-dependent on err != nil of the send")
-	exh := c.guardedBy(cb, func(l lit) bool { return c.isExhaustionLit(l) })
-	r.Ob(exh, name+"|callback-on-exhaustion", cb.Pos(), "the error callback is control-dependent on the exhaustion predicate (backoff stop or attempt counter vs AttemptNum); guards: "+c.clausesString(c.guards(fn)[cb.Block()]))
 	// the send is inside a cycle that contains a wait (timer receive / sleep) on the retry path
 	cyc, _ := c.pathExists(fn, send, func(in ssa.Instruction) bool { return in == ssa.Instruction(send) }, nil)
 	r.Ob(cyc, name+"|loop", send.Pos(), "the send is retried in a loop")
-	// the error passed to the callback is this send's error and the send gets the function's own batch
-	args := cb.Common().Args
-	r.Ob(len(args) >= 1 && args[0] == send.Value(), name+"|callback-error", cb.Pos(), "the error callback receives the error of the failed send")
 	sargs := send.Common().Args
 	okBatch := len(sargs) >= 1
 	if okBatch {
@@ -733,7 +757,7 @@ func ruleRetryLoopExits(c *Ctx, r *Rule) {
 		okBatch = isP && paramIndex(fn, p) >= 0
 	}
 	r.Ob(okBatch, name+"|send-batch", send.Pos(), "each attempt sends the batch the retry function was given")
-	c.attemptLowerBound(r, fn, cb)
+	c.attemptLowerBound(r, fn, errCbs[0])
 }
 
 // isExhaustionLit: comparison involving the result of NextBackOff or the AttemptNum option.
